@@ -206,6 +206,9 @@ def _point_harness_at_repo():
         open(mf, "w").write(new)
 
 
+HARNESS_DEGRADED = None
+
+
 def build_harness(timeout=1500):
     _point_harness_at_repo()
     with Lock("cargo.lock"):
@@ -220,6 +223,19 @@ def build_harness(timeout=1500):
                                timeout=timeout)
         except subprocess.TimeoutExpired:
             return False, "TIMEOUT"
+        global HARNESS_DEGRADED
+        HARNESS_DEGRADED = None
+        if p.returncode != 0:
+            # a signature of one of the internal helper functions the harness calls directly may have changed: fall back
+            # to the harness without those calls, so that the entry points can still be driven and a failing input sought
+            try:
+                q = subprocess.run(["cargo", "build", "--offline", "--quiet", "--no-default-features"], cwd=HARNESS_DIR,
+                                   env=ENV, stdout=subprocess.PIPE, stderr=subprocess.STDOUT, text=True, timeout=timeout)
+            except subprocess.TimeoutExpired:
+                return False, "TIMEOUT"
+            if q.returncode == 0:
+                HARNESS_DEGRADED = p.stdout[-3000:]
+                return True, p.stdout[-6000:]
         return p.returncode == 0, p.stdout[-6000:]
 
 
@@ -588,6 +604,10 @@ def main_check(chk, argv):
 
     # 2. implementation side
     ok, out = build_harness()
+    if ok and HARNESS_DEGRADED:
+        log("HARNESS BUILT WITHOUT THE FUNCTION-LEVEL API:\n" + HARNESS_DEGRADED[-2000:])
+        broken.append("the harness no longer builds against /repo with its direct calls to internal helper functions "
+                      "(a signature changed); function-level correspondence unavailable, entry points still driven")
     if not ok:
         log("HARNESS BUILD FAILED:\n" + out[-3000:])
         broken.append("harness does not build against /repo (correspondence unavailable)")
